@@ -213,7 +213,11 @@ func (s *snapshotSink) done(err error) (snapshotMeta, error) {
 	}
 	temp = nil
 	s.snaps.mu.Lock()
-	s.snaps.index, s.snaps.term = s.meta.index, s.meta.term
+	// a newer snapshot might have been stored meanwhile. for ex. a snapshot
+	// installed by leader, while the snapshot taken by us is being written
+	if s.meta.index > s.snaps.index {
+		s.snaps.index, s.snaps.term = s.meta.index, s.meta.term
+	}
 	s.snaps.mu.Unlock()
 	_ = s.snaps.applyRetain() // todo: trace error
 	return s.meta, nil
